@@ -291,9 +291,9 @@ class Gen(object):
 
     def add_content(self, blk, depth):
         r = self.r
-        kinds = ["raise", "raise", "log", "log"]
+        kinds = ["raise", "raise", "log", "log"] if not self.f.get("few_raises") else ["raise", "log", "log", "log", "log", "log"]
         if self.f["sends"]:
-            kinds += ["send", "send", "cancel"]
+            kinds += ["send", "send", "cancel"] if not self.f.get("few_raises") else ["send", "cancel"]
         if self.dm != "null" and self.vars:
             kinds += ["assign", "assign"]
         if self.f["ifs"] and depth < 1:
